@@ -98,7 +98,7 @@ Section OldCsv.
 
   Lemma header_rejects_general input h st1 r st2 :
     d_header d = Some h ->
-    jump_to (S h) (d_delim d) (h - 1) (o_c (old_init d input)) = Some (false, st1) ->
+    jump_to (S h) (d_delim d) (h - 1) (o_c (old_init d input)) = Some (JOk, st1) ->
     csv_next (d_delim d) st1 = (r, st2) ->
     r <> CFuel ->
     (forall hdr, r = CRec hdr -> header_matches trim d hdr = false) ->
@@ -112,7 +112,7 @@ Section OldCsv.
 
   Lemma header_unreadable input h st1 :
     d_header d = Some h ->
-    jump_to (S h) (d_delim d) (h - 1) (o_c (old_init d input)) = Some (true, st1) ->
+    jump_to (S h) (d_delim d) (h - 1) (o_c (old_init d input)) = Some (JEof, st1) ->
     forall k, run_reads ost oread (S k) (old_init d input) = [OFatal].
   Proof.
     intros Hh Hj k. cbn [run_reads]. rewrite old_read_init.
@@ -137,7 +137,7 @@ Section OldCsv.
      error as well, whatever the names on it are - no Read after it can deliver a record *)
   Lemma header_parse_error input h st1 st2 :
     d_header d = Some h ->
-    jump_to (S h) (d_delim d) (h - 1) (o_c (old_init d input)) = Some (false, st1) ->
+    jump_to (S h) (d_delim d) (h - 1) (o_c (old_init d input)) = Some (JOk, st1) ->
     csv_next (d_delim d) st1 = (CParseErr, st2) ->
     forall k, run_reads ost oread (S k) (old_init d input) = [OFatal].
   Proof.
